@@ -8,11 +8,11 @@ ID = "C16"
 RULE = ("E-INPUT: start instants (days 27-31/1-2 around every month end and every Sunday of 2019-2020 x 2 times of day, 4 early "
         "instants from 1900-1950, a seeded instant; thorough: every day 2019-2022 x 3 times of day) x a 42-rung span ladder "
         "1 ms..250 y (incl. 7,8,9 ms and 28-31 d) x counts (quick {2,3,5,10,17,50}; thorough 2..50) x both orientations, "
-        "through the real TimeScale().domain(..).ticks(m); spans that are count x (an entry of the 18-entry tick-interval table) exactly and 1 ms beside; plus scale/copy histories (domain, [ticks], copy, re-domain the copy, ticks on both) over 4 starts x span pairs of different magnitude, compared with fresh scales; on every sixth start a plain request judged right after a two-argument request ticks(m, step) on another scale of the same span, or after ticks(m) on a scale constructed with its own tick-method table. Oracle: no exception, strictly increasing, in-domain, calendar class "
+        "through the real TimeScale().domain(..).ticks(m); spans that are count x (an entry of the 18-entry tick-interval table) exactly and 1 ms beside; plus scale/copy histories (domain, [ticks], copy, re-domain the copy, ticks on both) over 4 starts x span pairs of different magnitude, compared with fresh scales; zoom histories (ONE scale given every span of the ladder in turn, 30-60 domain() calls, ticks after each, against fresh scales); on every sixth start a plain request judged right after a two-argument request ticks(m, step) on another scale of the same span, or after ticks(m) on a scale constructed with its own tick-method table. Oracle: no exception, strictly increasing, in-domain, calendar class "
         "from the smallest gap (R-CAL), gap ratio <= 2, count bounds. Non-trivial: >= 2 ticks; separately counted: domains "
         "crossing a 29th-31st, sub-second steps.")
 ASSUMPTIONS = ["TZ=UTC in this check; zone independence is C18", "degenerate (zero-span) domains are outside the property"]
-REQUIRED_COUNTERS = ("copy_histories", "plain_requests_after_step_form", "spans_on_table_multiples", "tick_lists", "subsecond", "class_d", "class_mon", "class_y", "class_h", "class_min", "class_s")
+REQUIRED_COUNTERS = ("copy_histories", "zoom_histories", "plain_requests_after_step_form", "spans_on_table_multiples", "tick_lists", "subsecond", "class_d", "class_mon", "class_y", "class_h", "class_min", "class_s")
 
 
 def bounds(tier, seed):
@@ -165,7 +165,7 @@ def starts_for(shard):
 
 
 def plan(tier, seed):
-    hist = [{"kind": "copyhist", "mod": 8, "rem": r} for r in range(8)]
+    hist = [{"kind": "copyhist", "mod": 8, "rem": r} for r in range(8)] + [{"kind": "zoomhist"}]
     if tier == "quick":
         return [{"kind": "grid", "seed": seed, "mod": 32, "rem": r, "counts": [2, 3, 5, 10, 17, 50]} for r in range(32)] + hist
     shards = hist + [{"kind": "grid", "seed": seed, "mod": 16, "rem": r, "counts": list(range(2, 51))} for r in range(16)]
@@ -176,8 +176,56 @@ def plan(tier, seed):
     return shards
 
 
+def judge_zoom_history(st, spans, m, interleave, acc=None):
+    """ONE live scale is given one domain after the other (a zoom through the whole span ladder); after every domain() its
+    ticks(m) must equal those of a fresh scale with that domain.  interleave: the fresh scales are built between the calls
+    on the live scale (True) or only after the whole walk (False)."""
+    from labella.scale import TimeScale
+    doms = [[st, st + timedelta(milliseconds=sp)] for sp in spans if (st + timedelta(milliseconds=sp)).year <= 2200]
+    try:
+        with horizon(60.0):
+            s = TimeScale()
+            got, want = [], []
+            for d in doms:
+                s.domain(list(d))
+                got.append(list(s.ticks(m)))
+                if interleave:
+                    want.append(list(TimeScale().domain(list(d)).ticks(m)))
+            if not interleave:
+                want = [list(TimeScale().domain(list(d)).ticks(m)) for d in doms]
+    except Hang:
+        return "HANG", "zoom history from %s did not return" % (st,)
+    except Exception as e:
+        return "EXC:" + type(e).__name__, "zoom history from %s (%d domains) raised %r" % (st, len(doms), e)
+    if acc is not None:
+        acc.counters["zoom_histories"] += 1
+        acc.counters["zoom_history_domains"] += len(doms)
+    for k, d in enumerate(doms):
+        if got[k] != want[k]:
+            return ("C16:zoom-history", "one scale given %d domains in turn: after domain #%d (%s..%s) ticks(%d) = %s... (%d ticks), a fresh "
+                    "scale gives %s... (%d ticks)" % (len(doms), k + 1, d[0], d[1], m, [str(x) for x in got[k][:3]], len(got[k]),
+                                                     [str(x) for x in want[k][:3]], len(want[k])))
+    return None
+
+
 def run_shard(shard):
     acc = Acc()
+    if shard["kind"] == "zoomhist":
+        sts = timegrid.EARLY[:2] + [datetime(2020, 1, 31, 13, 30), datetime(2020, 2, 29)]
+        ladder = list(timegrid.SPANS_MS)
+        for st in sts:
+            for spans, name in ((ladder, "out"), (ladder[::-1], "in"), (ladder[::2] + ladder[::-2], "out-in")):
+                for m in (5, 10):
+                    for inter in (True, False):
+                        bad = judge_zoom_history(st, spans, m, inter, acc)
+                        acc.states += 1
+                        acc.evals += len(spans)
+                        acc.trans += len(spans)
+                        case = {"hist": "zoom", "start": st, "spans": spans, "m": m, "interleave": inter}
+                        if bad:
+                            acc.violation(case, bad[0], bad[1], order=(10 ** 13 + 1, 0, m))
+        acc.sample(case)
+        return acc
     if shard["kind"] == "copyhist":
         spans = timegrid.SPANS_MS[9::3]
         sts = timegrid.EARLY[:2] + [datetime(2020, 1, 31, 13, 30), datetime(2020, 2, 29)]
@@ -255,6 +303,8 @@ def run_shard(shard):
 def replay(case):
     if case.get("hist") == "copy":
         return judge_copy_history(case["dA"], case["dB"], case["m"], case["order"])
+    if case.get("hist") == "zoom":
+        return judge_zoom_history(case["start"], case["spans"], case["m"], case["interleave"])
     if case.get("pre_step"):
         return judge_after_step_form(case["start"], case["span_ms"], case["m"], case["rev"], case["pre_step"])
     return judge(case["start"], case["span_ms"], case["m"], case["rev"])
